@@ -677,7 +677,7 @@ Proof.
   pose proof (MergeWf.merge_wf _ _ _ _ _ Hwl Hwc Hmerge) as Hnv.
   destruct (to_fs c cfg) as [set0|] eqn:Hfs; [|discriminate].
   destruct (ignore_filter_for c ver) as [f|] eqn:Hf; [|discriminate].
-  destruct (prune c n0 (fst live, nv) (mf_set mgr (mkRec (filter_set f set0) ver true) mf0) mgr
+  destruct (prune c n0 (fst live, nv) (mf_set mgr (mkRec set0 ver true) mf0) mgr
               (mf_get mgr mf0)) as [[pruned n1]|e] eqn:Hpr; [|discriminate].
   pose proof (prune_wf c n0 (fst live, nv) _ _ _ _ _ Hcv Hnv Hpr) as Hwp.
   destruct (update_core c n1 live pruned ver (mf_set mgr (mkRec (filter_set f set0) ver true) mf0) mgr force)
